@@ -79,8 +79,11 @@ func (txn *Txn) rangeWrite(fn func(commitID uint64, chunk commit.Chunk, fill bit
 	lock := txn.owner.slock
 	txn.dirty.Range(func(x uint32) {
 		chunk := commit.Chunk(x)
-		commitID := commit.Next()
 		lock.Lock(uint(chunk))
+
+		// Draw the commit ID under the latch, so that for any chunk the IDs
+		// follow the order in which the commits are applied and logged.
+		commitID := commit.Next()
 
 		// Compute the fill and set the last commit ID
 		txn.owner.lock.RLock()
